@@ -43,6 +43,21 @@ def has_fn(f, fname):
     return isinstance(f, Form) and any(a[0] == "fn" and a[1] == fname for a in f.atoms())
 
 
+def _gain_at_least_one(d):
+    """sign of a difference on the statement's domain G >= 0 dB: 10^(c*G) - 1 >= 0 for c > 0 (the linear gain is at least 1)"""
+    if not isinstance(d, Form) or len(d.terms) != 2:
+        return None
+    for sign in (1, -1):
+        e = d * sign + 1
+        a = e.single_atom() if isinstance(e, Form) else None
+        if a and a[0] == "fn" and a[1] == "exp10" and len(a[2]) == 1 and isinstance(a[2][0], Form):
+            k = a[2][0] / S("G")
+            q = k.rational() if isinstance(k, Form) else None
+            if q is not None and q > 0:
+                return "ge0" if sign == 1 else "le0"
+    return None
+
+
 def _ase_layouts(rargs, N):
     """accepted ways of drawing the four real quadratures (x/y polarisation x in-phase/quadrature, N samples each) in one call and
     pairing them: (re index, im index) per draw shape"""
@@ -78,6 +93,7 @@ def run(ctx):
     for noise, npol in itertools.product(("none", "notnone"), (1, 2)):
         case = f"noise={noise} n_pol={npol}"
         it = Interp(pkg, assumptions={"BW": None, "input.noise": noise, "input.n_pol": npol}, param_classes={"input": "optical_signal"})
+        it.domain_sign = _gain_at_least_one
         outs = it.run(fi)
         rets = [o for o in outs if o.kind == "return"]
         if len(rets) != 1 or not isinstance(rets[0].value, ObjV):
@@ -175,6 +191,7 @@ def run(ctx):
     outs = it.run(fi)
     ctx.check("C10.4", bool(outs) and outs[0].kind == "raise" and outs[0].exc == "TypeError", fi, fi.node, "EDFA: non-optical input", "raises TypeError", "non-optical input is not rejected with TypeError")
     it = Interp(pkg, assumptions={"BW": "notnone", "input.noise": "notnone", "input.n_pol": 2}, param_classes={"input": "optical_signal"})
+    it.domain_sign = _gain_at_least_one
     outs = it.run(fi)
     rets = [o for o in outs if o.kind == "return"]
     if len(rets) == 1 and isinstance(rets[0].value, ObjV):
